@@ -24,6 +24,14 @@ NA = {
 PENDING = {}
 
 CHECKS = {
+ "C18": dict(engine="c18_rng", category="exploration", design_ref="DESIGN.md section 6",
+   text="Seeded deterministic simulation of the randomness seam. Plans of 1-20 generating operations (every *_keygen found in the public headers, key pairs, secretstream header, sealed boxes, pwhash/scrypt strings, random points and scalars, uniform/random/buf/buf_deterministic, stir, close) share one byte stream served either by a scripted randombytes_implementation or by a simulated kernel (getrandom, or /dev/urandom after ENOSYS, with EINTR/EAGAIN/short reads) under the real built-in default source. Exact oracle for randombytes_uniform with draws placed at 2^32 mod n +-1, exact reference for buf_deterministic, documented identity for keygens; for every other secret: enough bytes requested, identical result when the same bytes are replayed under different ambient values (time, pid, getrandom, arc4random ...) and buffer pre-fill, and a different result when one served bit of the secret is flipped.",
+   note="Trusted: the library's own deterministic functions used for self-consistency of key pairs / sealed boxes / hash strings, the harness-side ChaCha20 (RFC 8439 vectors checked at start-up), the guarded CPU-mask hook. Sampling, not proof. A generator that derives its secret differently from the same source bytes is not flagged (only keygens are pinned to their documented behaviour).",
+   technique="deterministic simulation: scripted entropy source / simulated kernel with syscall fault injection, replay + perturbation oracles"),
+ "C20": dict(engine="c20_oom", category="fault_enumeration", design_ref="DESIGN.md section 8",
+   text="Fault enumeration behind the malloc/calloc/realloc/posix_memalign/mmap seam: for each sampled call (pwhash raw/str/str_verify/needs_rehash for both Argon2 variants through generic and specific entry points, scrypt raw/_ll/str/str_verify, sodium_malloc, sodium_allocarray; correct, wrong, foreign-algorithm, truncated and garbage strings) the allocation request sequence is recorded and EVERY position is failed in turn, under 'that request only' and 'that and all later ones'. Oracle: error return (never success, verify never 0, needs_rehash -1), live-block table empty of blocks from the call, no double/invalid free or stray munmap, no crash or ASan report, and a following fault-free call equals the reference. Run on three allocator build variants (mmap, posix_memalign, malloc) x {gcc -O2, clang ASan} x CPU backends.",
+   note="Exhaustive over allocation positions per sampled call; calls and parameters are sampled. errno and output buffer contents after failure are not constrained. mlock/madvise/mprotect failures are not allocation failures and are not injected.",
+   technique="deterministic fault injection: exhaustive enumeration of failing allocation positions with allocator bookkeeping"),
  "C09": dict(engine="c09_stream", category="exploration", design_ref="DESIGN.md section 4",
    text="Seeded deterministic simulation of 1-3 secretstream sessions (real push/pull/rekey code) over a simulator-owned faulty transport (drop, duplicate, reorder, truncate, extend, bit flips in tag byte / ciphertext / MAC, AD flip/drop/extend/swap, cross-delivery between independent, same-key, same-header and twin streams, replay of old chunks incl. across rekeys), from chunk counters 1, 2^32-k and partial-width boundaries. Every emitted chunk and every state is compared with an independent reference model of the documented construction; every rejected pull is checked to leave the state byte-identical; a heal phase checks bounded recovery. Sampling, not proof: millions of short diverse runs per check on several SIMD backends, with ASan.",
    note="Trusted: the harness-side reference ChaCha20/HChaCha20/Poly1305 (RFC 8439 vectors checked at start-up), the guarded CPU-mask hook, gcc/clang. A forged chunk passes with probability 2^-128, treated as never. Messages <= 4096 bytes, <= 60 operations per run.",
@@ -79,5 +87,5 @@ def main():
         f.write("\n")
 
 if __name__ == "__main__":
-    PENDING.update({p: "engine under construction in this session (will be claimed once its check exists)" for p in ("C17", "C18", "C19", "C20")})
+    PENDING.update({p: "engine under construction in this session (will be claimed once its check exists)" for p in ("C17", "C19")})
     main()
